@@ -69,8 +69,20 @@ import operator
 BINOPS = {'and': operator.and_, 'or': operator.or_, 'xor': operator.xor, 'add': operator.add, 'sub': operator.sub,
           'mul': operator.mul, 'concat': operator.floordiv}
 
-def ev_bin(op, l, r):
+def ev_bin(op, l, r, ip=False):
     L, R = real_operand(l), real_operand(r)
+    if ip:                                        # augmented assignment  x op= y : same value as x op y; y (and any other holder of x's old object) is not judged here
+        def f():
+            x = L
+            if op == 'and': x &= R
+            elif op == 'or': x |= R
+            elif op == 'xor': x ^= R
+            elif op == 'add': x += R
+            elif op == 'sub': x -= R
+            elif op == 'mul': x *= R
+            elif op == 'concat': x //= R
+            return x
+        return run(dict(op=op, l=l, r=r, ip=True), f, [R], alias_check=False)
     if op == 'hd':
         return run(dict(op=op, l=l, r=r), lambda: L.hd(R), [L, R], render=lambda x: x if isinstance(x, int) else -1)
     return run(dict(op=op, l=l, r=r), lambda: BINOPS[op](L, R), [L, R])
@@ -80,6 +92,13 @@ def ev_un(op, bits, **kw):
     from crysp.bits import Bits
     a = mk(bits)
     e = dict(op=op, a=list(bits)); e.update(kw)
+    if kw.get('ip'):                               # x <<= k / x >>= k
+        def f():
+            x = a
+            if op == 'shl': x <<= kw['k']
+            else: x >>= kw['k']
+            return x
+        return run(e, f, [], alias_check=False)
     if op == 'neg': f = lambda: -a
     elif op == 'inv': f = lambda: ~a
     elif op == 'shl': f = lambda: a << kw['k']
@@ -101,6 +120,18 @@ def ev_un(op, bits, **kw):
     elif op == 'get_list': f = lambda: a[list(kw['idx'])]
     else: raise ValueError(op)
     return run(e, f, [a])
+
+def ev_concat_list(parts, be):
+    """utils.operators.concat on a list of Bits: called TWICE on the same list (the list and its elements must be as they were)"""
+    from crysp.utils.operators import concat
+    objs = [mk(p) for p in parts]; lst = list(objs)
+    out = []
+    for _ in range(2):
+        e = dict(op='concat_list', parts=[list(p) for p in parts], be=be)
+        run(e, lambda: concat(lst, be) if be else concat(lst), objs, alias_check=len(parts) > 1)
+        if len(lst) != len(objs) or any(x is not y for x, y in zip(lst, objs)): e['others_unchanged'] = False
+        out.append(e)
+    return out
 
 # ---- mutations of one object ---------------------------------------------------------------------------
 class Obj:
@@ -132,6 +163,7 @@ class Obj:
             elif op == 'zext_ip':
                 r = o.zeroextend(e['n'])
                 if r is not o: e['raised'] = 'NotInPlace'
+            elif op == 'load': o.load(bytes(e['s']), e['order'])
             elif op == 'sext_ip':
                 r = o.signextend(e['n'])
                 if r is not o: e['raised'] = 'NotInPlace'
